@@ -1,6 +1,79 @@
-(* C18 - placeholder until Proofs/ForgeSeqFacts.v lands. *)
-From Coq Require Import List.
-From BB Require Import Base.Names.
-Theorem C18_placeholder : forall l, NoDup (uniquify l).
-Proof. exact uniquify_NoDup. Qed.
-Print Assumptions C18_placeholder.
+(* C18 - forged structure is schema-valid; subsequences forge like stand-alone sequences.
+   Only statements; every proof is `exact <lemma>` into Proofs/ForgeSeqFacts.v. *)
+From Coq Require Import String List ZArith QArith Bool.
+From BB Require Import Base.Names Base.Num Base.PyList Model.Types Model.Blueprint Model.Forge Model.Element
+  Model.PyVal Model.Sequence Proofs.ForgeSeqFacts.
+Import ListNotations.
+
+(* whatever forge() returns validates against the published forged-sequence schema, flags and time axis included *)
+Theorem C18_schema : forall s d f t p, seq_forge s d f t = Ok p -> schema_ok p = true.
+Proof. exact forge_schema. Qed.
+
+(* one entry per position 1..N, in order, each with that position's sequencing, its type and its content *)
+Theorem C18_positions : forall s d f t p,
+  seq_forge s d f t = Ok p ->
+  exists out, p = PDict out /\ map fst out = map PInt (range1 (length (sdata s))) /\
+    forall k v, In (PInt k, v) out ->
+      exists q ty c, alookup Z.eqb k (sseq s) = Some q /\
+        v = PDict [(pstr "sequencing", pv_of_sqing q); (pstr "type", ty); (pstr "content", c)].
+Proof. exact forge_positions. Qed.
+
+(* an element position: type "element", one content entry 1 holding the per-channel arrays *)
+Theorem C18_element_entry : forall s f t e r,
+  forge_entry s f t (EElem e) = Ok r ->
+  exists dta, forge_elem_data s f t e = Ok dta /\ r = (pstr "element", PDict [(PInt 1, PDict [(pstr "data", dta)])]).
+Proof. exact element_entry. Qed.
+
+(* a subsequence position: type "subsequence", one content entry per subsequence position 1..K with that
+   position's OWN sequencing and exactly the arrays that the element would forge to stand-alone under the
+   parent's settings *)
+Theorem C18_subsequence_entry : forall s f t (sb : subseq) r,
+  forge_entry s f t (ESub sb) = Ok r ->
+  exists l, r = (pstr "subsequence", PDict l) /\ map fst l = map PInt (range1 (length (sdata sb))) /\
+    forall k v, In (PInt k, v) l ->
+      exists e q dta, alookup Z.eqb k (sdata sb) = Some e /\ alookup Z.eqb k (sseq sb) = Some q /\
+        forge_elem_data s f t e = Ok dta /\
+        v = PDict [(pstr "data", dta); (pstr "sequencing", pv_of_sqing q)] /\
+        forge_entry s f t (EElem e) = Ok (pstr "element", PDict [(PInt 1, PDict [(pstr "data", dta)])]).
+Proof. exact subsequence_entry. Qed.
+
+(* time axis and segment durations only when requested; flags only where set *)
+Theorem C18_optional_keys : forall o w,
+  match pv_of_chout o w with
+  | PDict l =>
+      (match o with
+       | OForged _ fl wt _ =>
+           (existsb (fun kv => key_is "time" (fst kv)) l = wt) /\ (existsb (fun kv => key_is "newdurations" (fst kv)) l = wt) /\
+           (existsb (fun kv => key_is "flags" (fst kv)) l = match fl with Some _ => true | None => false end)
+       | OArr arrs tn => existsb (fun kv => key_is "time" (fst kv)) l =
+                         (match tn with Some _ => true | None => false end || existsb (fun p => str_eqb (fst p) (S_ "time")) arrs)
+       end)
+  | _ => False
+  end.
+Proof. exact optional_keys. Qed.
+
+(* nested subsequences and subsequences with another sample rate are refused, leaving the sequence unchanged *)
+Theorem C18_subsequence_guards : forall s pos sub,
+  (existsb (fun p : Z * entry => entry_is_sub (snd p)) (sdata sub) = true -> seq_add_sub s pos sub = (s, Some EValue)) /\
+  (val_eqb (seq_SR sub) (seq_SR s) = false -> snd (seq_add_sub s pos sub) = Some EValue /\ fst (seq_add_sub s pos sub) = s).
+Proof. exact subsequence_guards. Qed.
+
+(* points and duration account for subsequence content; duration is weighted by the repetitions *)
+Theorem C18_points : forall s, seq_points s = sumR entry_points (avals (sdata s)).
+Proof. exact points_spec. Qed.
+Theorem C18_points_sub : forall sb, entry_points (ESub sb) = sumR el_points (avals (sdata sb)).
+Proof. exact points_sub. Qed.
+Theorem C18_duration_step : forall (E : Type) (edur : E -> result Q) sq p x l q d r,
+  alookup Z.eqb p sq = Some q -> edur x = Ok d -> dur_loop edur sq l = Ok r ->
+  dur_loop edur sq ((p, x) :: l) = Ok (inject_Z (nrep q) * d + r)%Q.
+Proof. exact duration_step. Qed.
+
+Print Assumptions C18_schema.
+Print Assumptions C18_positions.
+Print Assumptions C18_element_entry.
+Print Assumptions C18_subsequence_entry.
+Print Assumptions C18_optional_keys.
+Print Assumptions C18_subsequence_guards.
+Print Assumptions C18_points.
+Print Assumptions C18_points_sub.
+Print Assumptions C18_duration_step.
